@@ -177,7 +177,12 @@ class CoverpointModel(CoverItemBase):
     
     def get_inst_coverage(self):
         if not self.coverage_calc_valid:
-            self.coverage = (len(self.hit_l)-len(self.unhit_s))/len(self.hit_l) * 100.0
+            # A bin is covered once it has been hit 'at_least' times
+            n_covered = 0
+            for h in self.hit_l:
+                if h >= self.options.at_least:
+                    n_covered += 1
+            self.coverage = n_covered/len(self.hit_l) * 100.0
             self.coverage_calc_valid = True
         
         return self.coverage
@@ -213,9 +218,11 @@ class CoverpointModel(CoverItemBase):
         self.coverage_calc_valid = False
         if bin_type == CoverpointBinType.Bins:
             if bin_idx in self.unhit_s:
-                self.parent.coverage_ev(self, bin_idx)
                 self.unhit_s.remove(bin_idx)
             self.hit_l[bin_idx] += 1
+            if self.hit_l[bin_idx] <= max(self.options.at_least, 1):
+                # Coverage changes until the bin reaches its goal
+                self.parent.coverage_ev(self, bin_idx)
             self.coverage_calc_valid = False
         elif bin_type == CoverpointBinType.Ignore:
             self.hit_ignore_l[bin_idx] += 1
